@@ -28,6 +28,7 @@ def judge(rec, opts):
     from liquid2 import DictLoader
     from liquid2.exceptions import LiquidError
 
+    replay.LOOP_CAP = 5000 if str(rec.get("focus", "")).startswith("confused") else None
     replay.install_clock()
     out = []
     cfg = rec["cfg"]
